@@ -9,6 +9,8 @@
                                        payload order)
      src/cr/cube/stripe/assembler.py   _BaseOrderHelper.display_order, _SortByMeasureHelper._measure,
                                        _SortByLabelHelper, _BaseSortByValueHelper._display_order
+     src/cr/cube/matrix/measure.py     _PopulationProportions.blocks (NaN for difference subtotals)
+     src/cr/cube/stripe/measure.py     _PopulationProportions.subtotal_values (the same)
      src/cr/cube/dimension.py          _OrderSpec (measure / marginal / element_id / insertion_id:
                                        KeyError when the field is absent, ValueError when the keyword
                                        is no member of the enumeration)
@@ -16,6 +18,11 @@
    Executable definitions only (proofs: Proofs/SortKeysProofs.v); the three keyword tables and the two
    enumerations are compared with the source text (ast) on every run of harness/props/c08.py, the
    resolution + collation is compared with row_order()/column_order().
+
+   The measures object the helpers read is [slice_measures] / [strand_measures]: the population
+   proportions carry NaN in the vectors of difference subtotals (matrix/measure.py, stripe/measure.py
+   _PopulationProportions, /repo e7676546), so a sort by `population` has no key where the public
+   population_counts has no value.
 
    A table row also records what the USER reads under the keyword (the public measure of the partition)
    and how that value derives from the quantity the helper sorts on ([reading]); that part is not in the
@@ -142,6 +149,49 @@ Definition vblocks : Type := (list xq * list xq)%type.
    ValueError (the response does not carry what the measure needs) *)
 Definition menv : Type := string -> option mblocks.
 Definition venv : Type := string -> option vblocks.
+
+(* --- the population proportions --------------------------------------------------------------------- *)
+(* matrix/measure.py::_PopulationProportions.blocks and stripe/measure.py::_PopulationProportions
+   .subtotal_values (since /repo e7676546): the row / column / table proportions, with NaN in every
+   vector of a DIFFERENCE subtotal - inserted rows, inserted columns and the intersections of either;
+   the subtotal values of a strand.  A difference has no population estimate (population_counts is NaN
+   there), so the key the `population` keyword sorts on is NaN exactly where the public value is.
+   [flags]: _Subtotal.is_difference of the subtotals of the dimension, in payload order (a missing
+   flag counts as False).  The std-err the `population_moe` keyword sorts on is left as it is: its
+   public value for a difference is a number. *)
+Fixpoint nan_where (flags : list bool) (v : list xq) : list xq :=
+  match v with
+  | [] => []
+  | x :: t => (if hd false flags then NaN else x) :: nan_where (tl flags) t
+  end.
+(* values[:, diff_cols] = nan *)
+Definition nan_cols (flags : list bool) (m : list (list xq)) : list (list xq) :=
+  map (nan_where flags) m.
+(* values[diff_rows, :] = nan *)
+Fixpoint nan_rows (flags : list bool) (m : list (list xq)) : list (list xq) :=
+  match m with
+  | [] => []
+  | r :: t => (if hd false flags then map (fun _ => NaN) r else r) :: nan_rows (tl flags) t
+  end.
+
+Definition population_blocks (drows dcols : list bool) (b : mblocks) : mblocks :=
+  mkBlocks (mb_base b)
+           (nan_cols dcols (mb_scols b))
+           (nan_rows drows (mb_srows b))
+           (nan_cols dcols (nan_rows drows (mb_inter b))).
+Definition population_vblocks (diffs : list bool) (b : vblocks) : vblocks :=
+  (fst b, nan_where diffs (snd b)).
+
+Definition population_prop : string := "population_proportions".
+
+(* the measures object of a slice / of a strand over the proportions [raw] its first-order measures
+   give: only the population proportions look at the difference flags *)
+Definition slice_measures (drows dcols : list bool) (raw : menv) : menv :=
+  fun p => if String.eqb p population_prop
+           then option_map (population_blocks drows dcols) (raw p) else raw p.
+Definition strand_measures (diffs : list bool) (raw : venv) : venv :=
+  fun p => if String.eqb p population_prop
+           then option_map (population_vblocks diffs) (raw p) else raw p.
 
 (* the "order" dict of the dimension that is being sorted *)
 Record order_req : Type := mkOrd {
@@ -408,15 +458,22 @@ Definition run_sorted_full (d : dimension) (o : order_req) (m : method) (f : fou
   run_sorted d o m f empties psub
   ++ r_res (r_seq r_entry) (partition_order_bogus d o m f empties psub).
 
-Definition run_rows (d : dimension) (o : order_req) (opp : opposing) (env : menv) (marg : venv)
+(* [drows] / [dcols]: the difference flags of the subtotals of the rows / columns dimension; [raw]: the
+   measures before the population proportions look at them *)
+Definition run_rows (d : dimension) (o : order_req) (opp : opposing) (drows dcols : list bool)
+           (raw : menv) (marg : venv)
            (labels sublabels : list string) (empties : list nat) (psub : bool) : list Z :=
   let m := method_of PRows (o_type o) in
-  run_sorted_full d o m (rows_values o opp env marg labels sublabels m) empties psub.
-Definition run_columns (d : dimension) (o : order_req) (opp : opposing) (env : menv)
+  run_sorted_full d o m
+    (rows_values o opp (slice_measures drows dcols raw) marg labels sublabels m) empties psub.
+Definition run_columns (d : dimension) (o : order_req) (opp : opposing) (drows dcols : list bool)
+           (raw : menv)
            (labels sublabels : list string) (empties : list nat) (psub : bool) : list Z :=
   let m := method_of PColumns (o_type o) in
-  run_sorted_full d o m (columns_values o opp env labels sublabels m) empties psub.
-Definition run_strand (d : dimension) (o : order_req) (env : venv)
+  run_sorted_full d o m
+    (columns_values o opp (slice_measures drows dcols raw) labels sublabels m) empties psub.
+Definition run_strand (d : dimension) (o : order_req) (diffs : list bool) (raw : venv)
            (labels sublabels : list string) (empties : list nat) : list Z :=
   let m := method_of PStrand (o_type o) in
-  run_sorted_full d o m (strand_values o env labels sublabels m) empties false.
+  run_sorted_full d o m
+    (strand_values o (strand_measures diffs raw) labels sublabels m) empties false.
